@@ -87,10 +87,16 @@ fn test_date_span(c: &DtSpan, cx: &mut Cx) -> CaseResult {
     if let Some(w) = want {
         let g = date + span;
         ensure!(ymd_of(g) == w, "date+span-wrong", "{ctx}: operator + = {g} want {w:?}");
+        let mut g = date;
+        g += span;
+        ensure!(ymd_of(g) == w, "date+=span-wrong", "{ctx}: operator += gives {g} want {w:?}");
     }
     if let Some(w) = wsub {
         let g = date - span;
         ensure!(ymd_of(g) == w, "date-span-wrong", "{ctx}: operator - = {g} want {w:?}");
+        let mut g = date;
+        g -= span;
+        ensure!(ymd_of(g) == w, "date-=span-wrong", "{ctx}: operator -= gives {g} want {w:?}");
     }
     Ok(())
 }
@@ -121,6 +127,16 @@ fn test_datetime_span(c: &DtSpan, cx: &mut Cx) -> CaseResult {
     if let Some(w) = want {
         let g = dt + span;
         ensure!(dt_fields(g) == w, "datetime+span-wrong", "{ctx}: operator + = {g} want {w:?}");
+        let mut g = dt;
+        g += span;
+        ensure!(dt_fields(g) == w, "datetime+=span-wrong", "{ctx}: operator += gives {g} want {w:?}");
+    }
+    if let Some(w) = wsub {
+        let g = dt - span;
+        ensure!(dt_fields(g) == w, "datetime-span-wrong", "{ctx}: operator - = {g} want {w:?}");
+        let mut g = dt;
+        g -= span;
+        ensure!(dt_fields(g) == w, "datetime-=span-wrong", "{ctx}: operator -= gives {g} want {w:?}");
     }
     Ok(())
 }
@@ -163,6 +179,10 @@ fn test_time_span(c: &TimeSpan, cx: &mut Cx) -> CaseResult {
         ensure!(tod_of(g) == wrap, "time.wrapping_add(span)-wrong", "{ctx}: wrapping_add = {g} want tod {wrap}ns");
         ensure!(tod_of(gs) == wrap_sub, "time.wrapping_sub(span)-wrong", "{ctx}: wrapping_sub = {gs} want tod {wrap_sub}ns");
         ensure!(tod_of(t + span) == wrap && tod_of(t - span) == wrap_sub, "time-operators-wrong", "{ctx}: operators disagree with wrapping arithmetic");
+        let (mut ta, mut ts) = (t, t);
+        ta += span;
+        ts -= span;
+        ensure!(tod_of(ta) == wrap && tod_of(ts) == wrap_sub, "time-assign-operators-wrong", "{ctx}: += / -= disagree with wrapping arithmetic ({ta}, {ts})");
     } else {
         // soft: keep evaluating the checked/saturating clauses of this case
         if tod_of(g) != wrap {
@@ -245,6 +265,16 @@ fn test_durations(c: &DtDur, cx: &mut Cx) -> CaseResult {
     let sat = dt.saturating_add(d);
     let wsat = want.unwrap_or(if ns < 0 { dt_fields(DateTime::MIN) } else { dt_fields(DateTime::MAX) });
     ensure!(dt_fields(sat) == wsat, "datetime.saturating_add(duration)-wrong", "{ctx}: saturating_add = {sat} want {wsat:?}");
+    if let Some(w) = want {
+        let mut g = dt;
+        g += d;
+        ensure!(dt_fields(dt + d) == w && dt_fields(g) == w, "datetime+duration-operators-wrong", "{ctx}: + / += give {} / {g} want {w:?}", dt + d);
+    }
+    if let Some(w) = wsub {
+        let mut g = dt;
+        g -= d;
+        ensure!(dt_fields(dt - d) == w && dt_fields(g) == w, "datetime-duration-operators-wrong", "{ctx}: - / -= give {} / {g} want {w:?}", dt - d);
+    }
     // saturating_sub clamps in the direction of the *negated* operand
     let sat = dt.saturating_sub(d);
     let wsat = wsub.unwrap_or(if ns > 0 { dt_fields(DateTime::MIN) } else { dt_fields(DateTime::MAX) });
